@@ -426,9 +426,8 @@ Definition step_spec (hg : bool) (max_step nfmax : Z) (z x : arr T) (s : St2) (r
        s_ray s' = set_sub (s_ray s) [s_count s] (s_pcur s') /\ clamped z x (s_pcur s')) \/
       (hg = true /\ (r = Next s' \/ r = Brk s') /\ s_count s' = s_count s + 1 /\ s_nfree s' = 0 /\
        s_ray s' = set_sub (s_ray s) [s_count s] (s_pcur s') /\
-       (exists p, vec2 p /\ clamped z x p /\
-                  magnet_of (s_lower s) (s_upper s) p (s_pcur s') 0 /\
-                  magnet_of (s_lower s) (s_upper s) p (s_pcur s') 1) /\
+       (exists p, (magnet_of (s_lower s) (s_upper s) p (s_pcur s') 0 /\
+                   magnet_of (s_lower s) (s_upper s) p (s_pcur s') 1) /\ vec2 p /\ clamped z x p) /\
        cells z x (s_pcur s') (s_lower s') (s_upper s')) \/
       (hg = true /\ r = Next s' /\ s_count s' = s_count s /\ s_nfree s' = s_nfree s + 1 /\
        s_ray s' = s_ray s /\ s_lower s' = s_lower s /\ s_upper s' = s_upper s))).
@@ -461,6 +460,59 @@ Proof.
   split; [exists a; exact G0|exists b; exact G1].
 Qed.
 
+Lemma get_set_vec2 d p v : vec2 p ->
+  get d (set p [0] v) [0] = v /\ get d (set p [0] v) [1] = get d p [1] /\
+  get d (set p [1] v) [1] = v /\ get d (set p [1] v) [0] = get d p [0].
+Proof.
+  intros [H1 H2]. destruct p as [sh l]. simpl in *. subst sh.
+  destruct l as [|u [|w [|]]]; try discriminate. repeat split; reflexivity.
+Qed.
+
+Lemma magnet_for_list lo up (body : Z -> arr T -> arr T) p :
+  (forall ix q, body ix q = q \/ body ix q = set q [ix] (get (nofZ 0) lo [ix]) \/
+                body ix q = set q [ix] (get (nofZ 0) up [ix])) ->
+  vec2 p ->
+  magnet_of lo up p (for_list (pyrange 0 2 1) body p) 0 /\
+  magnet_of lo up p (for_list (pyrange 0 2 1) body p) 1.
+Proof.
+  intros Hb Hp. change (pyrange 0 2 1) with [0; 1]. unfold for_list. simpl fold_left.
+  assert (H0 : vec2 (body 0 p) /\ magnet_of lo up p (body 0 p) 0 /\
+               get (nofZ 0) (body 0 p) [1] = get (nofZ 0) p [1]).
+  { unfold magnet_of. destruct (Hb 0 p) as [E|[E|E]]; rewrite E.
+    - auto.
+    - destruct (get_set_vec2 (nofZ 0) p (get (nofZ 0) lo [0]) Hp) as (G1 & G2 & _).
+      split; [apply vec2_set; exact Hp|]. rewrite G1, G2. auto.
+    - destruct (get_set_vec2 (nofZ 0) p (get (nofZ 0) up [0]) Hp) as (G1 & G2 & _).
+      split; [apply vec2_set; exact Hp|]. rewrite G1, G2. auto. }
+  destruct H0 as (Hq & M0 & K1). set (q := body 0 p) in *.
+  unfold magnet_of in *. destruct (Hb 1 q) as [E|[E|E]]; rewrite E.
+  - rewrite K1. auto.
+  - destruct (get_set_vec2 (nofZ 0) q (get (nofZ 0) lo [1]) Hq) as (_ & _ & G3 & G4).
+    rewrite G3, G4. auto.
+  - destruct (get_set_vec2 (nofZ 0) q (get (nofZ 0) up [1]) Hq) as (_ & _ & G3 & G4).
+    rewrite G3, G4. auto.
+Qed.
+
+Lemma cells_intro z x p lo up :
+  vec2 lo -> vec2 up ->
+  let i := searchsorted_right z (get (nofZ 0) p [0]) - 1 in
+  let j := searchsorted_right x (get (nofZ 0) p [1]) - 1 in
+  cells z x p
+    (set (set lo [0] (if neqb (get (nofZ 0) p [0]) (get (nofZ 0) z [i])
+                      then get (nofZ 0) z [Z.max (i - 1) 0] else get (nofZ 0) z [i]))
+         [1] (if neqb (get (nofZ 0) p [1]) (get (nofZ 0) x [j])
+              then get (nofZ 0) x [Z.max (j - 1) 0] else get (nofZ 0) x [j]))
+    (set (set up [0] (get (nofZ 0) z [Z.min (i + 1) (dim z 0%nat - 1)]))
+         [1] (get (nofZ 0) x [Z.min (j + 1) (dim x 0%nat - 1)])).
+Proof.
+  intros Hl Hu i j. unfold cells, cell.
+  match goal with |- context [set (set lo [0] ?a) [1] ?b] =>
+    destruct (get_set2 (nofZ 0) lo a b Hl) as [L0 L1] end.
+  match goal with |- context [set (set up [0] ?a) [1] ?b] =>
+    destruct (get_set2 (nofZ 0) up a b Hu) as [U0 U1] end.
+  rewrite L0, L1, U0, U1. repeat split; reflexivity.
+Qed.
+
 Ltac leaf_open Ebud :=
   lazymatch goal with
   | |- step_spec _ _ _ _ _ _ (_ ?tup) =>
@@ -471,13 +523,28 @@ Ltac leaf_open Ebud :=
   end.
 Ltac solve_vec2 Hp Hd :=
   repeat first
-    [ exact Hp | exact Hd
+    [ exact Hp | exact Hd | match goal with Hx : _ |- _ => exact Hx end
     | apply len2_set | apply len2_amap | apply vec2_set | apply vec2_amap2
     | apply vec2_for_list;
       [ let ix := fresh "ix" in let q := fresh "q" in let Hq := fresh "Hq" in
         intros ix q Hq; cbv beta zeta;
         repeat (match goal with |- context [if ?c then _ else _] => destruct c end);
         repeat apply vec2_set; exact Hq | ] ].
+
+Ltac honor_inv Hp Hd :=
+  split; [|split; [|intros _; split]]; cbn [s_pcur s_delta s_lower s_upper fst snd]; solve_vec2 Hp Hd.
+Ltac honor_vertex Hp Hd Hl Hu :=
+  split; [reflexivity|]; split; [reflexivity|]; split; [reflexivity|];
+  cbn [s_pcur s_lower s_upper fst snd];
+  split;
+  [ eexists; split;
+    [ apply magnet_for_list;
+      [ let ix := fresh "ix" in let q := fresh "q" in
+        intros ix q; cbv beta zeta;
+        repeat (match goal with |- context [if ?c then _ else _] => destruct c end); auto
+      | solve_vec2 Hp Hd ]
+    | split; [solve_vec2 Hp Hd | apply clamped_intro; solve_vec2 Hp Hd] ]
+  | apply cells_intro; [exact Hl|exact Hu] ].
 
 Section Char.
 Variables (z x zgrad xgrad : arr T) (zend xend zsrc xsrc stepsize : T) (max_step : Z) (hg : bool).
@@ -491,7 +558,8 @@ Definition core_char_stmt : Prop :=
        u_ray2d_core_v fuel z x zgrad xgrad zend xend zsrc xsrc stepsize max_step hg =
        rbind (while_fuel fuel cond body s0) (fin2 zsrc xsrc max_step (nfree_max2 z x stepsize))) /\
     (s_count s0 = 1 /\ s_nfree s0 = 0 /\ s_pcur s0 = of_list [zend; xend] /\
-     s_ray s0 = set_sub (full [max_step; 2] (nofZ 0)) [0] (of_list [zend; xend]) /\ InvS hg s0) /\
+     s_ray s0 = set_sub (full [max_step; 2] (nofZ 0)) [0] (of_list [zend; xend]) /\ InvS hg s0 /\
+     (hg = true -> cells z x (of_list [zend; xend]) (s_lower s0) (s_upper s0))) /\
     (forall s, InvS hg s -> step_spec hg max_step (nfree_max2 z x stepsize) z x s (body s)).
 
 (* NB: `unfold` zeta-normalises, which would expand every let of the loop body; the walk below
@@ -515,20 +583,23 @@ Proof.
     repeat match goal with v := _ |- _ => subst v end.
     reflexivity.
   - split; [reflexivity|]. split; [reflexivity|]. split; [reflexivity|]. split; [reflexivity|].
-    split; [apply vec2_of_list|reflexivity].
-  - intros s Hs. destruct Hs as [Hp Hd]. cbv beta. pull_lets. head_if Ebud.
+    split; [split; [apply vec2_of_list|split; [reflexivity|]]|].
+    + intros Ehg. rewrite Ehg. split; split; reflexivity.
+    + intros Ehg. rewrite Ehg. split; split; reflexivity.
+  - intros s Hs. destruct Hs as (Hp & Hd & Hlu). cbv beta. pull_lets. head_if Ebud.
     + left. exact (f_equal Brk (St2_eta s)).
     + pull_lets. head_if Egn.
       * pull_lets. head_if Ehg.
-        -- pull_lets. head_if Efac.
+        -- destruct (Hlu eq_refl) as [Hl Hu]. pull_lets. head_if Efac.
            ++ pull_lets. head_if Esrc.
-              ** leaf_open Ebud. split; [split; cbn [s_pcur s_delta fst snd]; solve_vec2 Hp Hd|].
-                 right. left. repeat split; auto.
-              ** walk. leaf_open Ebud. split; [split; cbn [s_pcur s_delta fst snd]; solve_vec2 Hp Hd|].
-                 right. left. repeat split; auto.
-           ++ walk. leaf_open Ebud. split; [split; cbn [s_pcur s_delta fst snd]; solve_vec2 Hp Hd|].
+              ** leaf_open Ebud. split; [honor_inv Hp Hd|].
+                 right. left. split; [reflexivity|]. split; [right; reflexivity|]. honor_vertex Hp Hd Hl Hu.
+              ** walk. leaf_open Ebud. split; [honor_inv Hp Hd|].
+                 right. left. split; [reflexivity|]. split; [left; reflexivity|]. honor_vertex Hp Hd Hl Hu.
+           ++ walk. leaf_open Ebud. split; [honor_inv Hp Hd|].
               right. right. repeat split; auto.
-        -- walk. leaf_open Ebud. split; [split; cbn [s_pcur s_delta fst snd]; solve_vec2 Hp Hd|].
+        -- walk. leaf_open Ebud.
+           split; [split; [|split; [|intros; discriminate]]; cbn [s_pcur s_delta fst snd]; solve_vec2 Hp Hd|].
            left. repeat split; try reflexivity.
            all: cbn [s_pcur fst snd]; apply clamped_intro; solve_vec2 Hp Hd.
       * left. exact (f_equal Brk (St2_eta s)).
@@ -541,15 +612,20 @@ Definition progress (hg : bool) (max_step nfmax : Z) (z x : arr T) (s s' : St2) 
   ((hg = false /\ s_count s' = s_count s + 1 /\ s_nfree s' = s_nfree s /\
     s_ray s' = set_sub (s_ray s) [s_count s] (s_pcur s') /\ clamped z x (s_pcur s')) \/
    (hg = true /\ s_count s' = s_count s + 1 /\ s_nfree s' = 0 /\
-    s_ray s' = set_sub (s_ray s) [s_count s] (s_pcur s')) \/
-   (hg = true /\ s_count s' = s_count s /\ s_nfree s' = s_nfree s + 1 /\ s_ray s' = s_ray s)).
+    s_ray s' = set_sub (s_ray s) [s_count s] (s_pcur s') /\
+    (exists p, (magnet_of (s_lower s) (s_upper s) p (s_pcur s') 0 /\
+                magnet_of (s_lower s) (s_upper s) p (s_pcur s') 1) /\ vec2 p /\ clamped z x p) /\
+    cells z x (s_pcur s') (s_lower s') (s_upper s')) \/
+   (hg = true /\ s_count s' = s_count s /\ s_nfree s' = s_nfree s + 1 /\ s_ray s' = s_ray s /\
+    s_lower s' = s_lower s /\ s_upper s' = s_upper s)).
 
 Lemma step_spec_next hg ms nf z x s s' : step_spec hg ms nf z x s (Next s') -> progress hg ms nf z x s s'.
 Proof.
   intros [E|(H1 & H2 & t & Ht & Hc)]; [discriminate|].
   destruct Hc as [(A & B & C)|[(A & B & C)|(A & B & C)]].
   - injection B as <-. split; [exact H1|]. split; [exact H2|]. split; [exact Ht|]. left. tauto.
-  - destruct B as [B|B]; [|discriminate]. injection B as <-. split; [exact H1|]. split; [exact H2|]. split; [exact Ht|]. right; left. tauto.
+  - destruct B as [B|B]; [|discriminate]. injection B as <-.
+    split; [exact H1|]. split; [exact H2|]. split; [exact Ht|]. right; left. tauto.
   - injection B as <-. split; [exact H1|]. split; [exact H2|]. split; [exact Ht|]. right; right. tauto.
 Qed.
 Lemma step_spec_brk hg ms nf z x s s' :
@@ -557,7 +633,8 @@ Lemma step_spec_brk hg ms nf z x s s' :
 Proof.
   intros [E|(H1 & H2 & t & Ht & Hc)]; [injection E as <-; left; reflexivity|]. right.
   destruct Hc as [(A & B & C)|[(A & B & C)|(A & B & C)]]; try discriminate.
-  destruct B as [B|B]; [discriminate|]. injection B as <-. split; [exact H1|]. split; [exact H2|]. split; [exact Ht|]. right; left. tauto.
+  destruct B as [B|B]; [discriminate|]. injection B as <-.
+  split; [exact H1|]. split; [exact H2|]. split; [exact Ht|]. right; left. tauto.
 Qed.
 Lemma step_spec_exc hg ms nf z x s e : step_spec hg ms nf z x s (Exc e) -> False.
 Proof.
@@ -661,7 +738,7 @@ Lemma ray2d_core_no_raise fuel e : core fuel <> Raise e.
 Proof.
   destruct (hull2 z x zend xend) eqn:Hh.
   - destruct (ray2d_core_char z x zgrad xgrad zend xend zsrc xsrc stepsize max_step hg Hh)
-      as (cond & body & s0 & Heq & (_ & _ & _ & _ & Hi0) & Hstep).
+      as (cond & body & s0 & Heq & (_ & _ & _ & _ & Hi0 & Hcell0) & Hstep).
     rewrite Heq. destruct (while_fuel fuel cond body s0) as [s1| |] eqn:Ew; simpl; try discriminate.
     + destruct (fin2_ok zsrc xsrc max_step (nfree_max2 z x stepsize) s1) as [rc ->]. discriminate.
     + exfalso. eapply loop_no_raise; eauto.
@@ -675,7 +752,7 @@ Theorem ray2d_core_count_range fuel ray count :
 Proof.
   intros Hc. destruct (hull2 z x zend xend) eqn:Hh.
   - destruct (ray2d_core_char z x zgrad xgrad zend xend zsrc xsrc stepsize max_step hg Hh)
-      as (cond & body & s0 & Heq & (Hc0 & _ & _ & Hr0 & Hi0) & Hstep).
+      as (cond & body & s0 & Heq & (Hc0 & _ & _ & Hr0 & Hi0 & Hcell0) & Hstep).
     rewrite Heq in Hc. destruct (while_fuel fuel cond body s0) as [s1| |] eqn:Ew; simpl in Hc; try discriminate.
     destruct (loop_inv _ _ _ _ _ cond body Hstep
                 (fun s => 1 <= s_count s /\ shape (s_ray s) = [max_step; 2])) with (4 := Ew)
@@ -699,7 +776,7 @@ Proof.
     + right. destruct (ray2d_core_count_range fuel ray count Ec) as [Hr _].
       assert (Hn : count <> -1).
       { intros ->. destruct (ray2d_core_char z x zgrad xgrad zend xend zsrc xsrc stepsize max_step hg Hh)
-          as (cond & body & s0 & Heq & (Hc0 & _ & _ & _ & Hi0) & Hstep).
+          as (cond & body & s0 & Heq & (Hc0 & _ & _ & _ & Hi0 & Hcell0) & Hstep).
         rewrite Heq in Ec. destruct (while_fuel fuel cond body s0) as [s1| |] eqn:Ew; simpl in Ec; try discriminate.
         destruct (loop_inv _ _ _ _ _ cond body Hstep (fun s => 1 <= s_count s)) with (4 := Ew) as (_ & Hc1); auto.
         - intros s s' Hp1 _ (_ & _ & _ & [(A & B & _)|[(A & B & _)|(A & B & _)]]); rewrite B; lia.
@@ -718,7 +795,7 @@ Theorem ray2d_free_terminates fuel :
 Proof.
   intros Ehg Hf. destruct (hull2 z x zend xend) eqn:Hh.
   - destruct (ray2d_core_char z x zgrad xgrad zend xend zsrc xsrc stepsize max_step hg Hh)
-      as (cond & body & s0 & Heq & (Hc0 & _ & _ & _ & Hi0) & Hstep).
+      as (cond & body & s0 & Heq & (Hc0 & _ & _ & _ & Hi0 & Hcell0) & Hstep).
     rewrite Heq. destruct (while_fuel fuel cond body s0) as [s1| |] eqn:Ew; simpl; try discriminate.
     + destruct (fin2_ok zsrc xsrc max_step (nfree_max2 z x stepsize) s1) as [rc ->]. discriminate.
     + exfalso. revert Ew. eapply loop_terminates_free; eauto. unfold budm. rewrite Hc0. lia.
@@ -732,7 +809,7 @@ Theorem ray2d_terminates fuel :
 Proof.
   intros Hf. destruct (hull2 z x zend xend) eqn:Hh.
   - destruct (ray2d_core_char z x zgrad xgrad zend xend zsrc xsrc stepsize max_step hg Hh)
-      as (cond & body & s0 & Heq & (Hc0 & Hn0 & _ & _ & Hi0) & Hstep).
+      as (cond & body & s0 & Heq & (Hc0 & Hn0 & _ & _ & Hi0 & Hcell0) & Hstep).
     rewrite Heq. destruct (while_fuel fuel cond body s0) as [s1| |] eqn:Ew; simpl; try discriminate.
     + destruct (fin2_ok zsrc xsrc max_step (nfree_max2 z x stepsize) s1) as [rc ->]. discriminate.
     + exfalso. revert Ew. eapply loop_terminates; eauto. unfold lexm. rewrite Hc0, Hn0.
@@ -782,7 +859,7 @@ Proof.
   destruct (hull2 z x zend xend) eqn:Hh.
   2:{ rewrite ray2d_core_outside in Hc by exact Hh. injection Hc as _ <-. lia. }
   destruct (ray2d_core_char z x zgrad xgrad zend xend zsrc xsrc stepsize max_step hg Hh)
-    as (cond & body & s0 & Heq & (Hc0 & _ & _ & Hr0 & Hi0) & Hstep).
+    as (cond & body & s0 & Heq & (Hc0 & _ & _ & Hr0 & Hi0 & Hcell0) & Hstep).
   rewrite Heq in Hc. destruct (while_fuel fuel cond body s0) as [s1| |] eqn:Ew; simpl in Hc; try discriminate.
   destruct (loop_inv _ _ _ _ _ cond body Hstep ray_ok) with (4 := Ew) as (_ & Hok); auto.
   - intros s s' Hok _ (Hlt' & _ & [Hv _] & Hcase).
